@@ -55,7 +55,7 @@ pub enum ControlMessageType {
     UnlinkId = 35,
     UnlinkIdAck = 36,
     AliasSend = 33,
-    AliasSendTt = 38,
+    AliasSendTt = 34,
 }
 
 impl TryFrom<u8> for ControlMessageType {
@@ -92,7 +92,7 @@ impl TryFrom<u8> for ControlMessageType {
             35 => Ok(Self::UnlinkId),
             36 => Ok(Self::UnlinkIdAck),
             33 => Ok(Self::AliasSend),
-            38 => Ok(Self::AliasSendTt),
+            34 => Ok(Self::AliasSendTt),
             _ => Err(value),
         }
     }
@@ -316,7 +316,7 @@ pub enum ControlMessage {
         trace_token: OwnedTerm,
     },
 
-    /// ALIAS_SEND_TT {38, FromPid, Alias, TraceToken}
+    /// ALIAS_SEND_TT {34, FromPid, Alias, TraceToken}
     AliasSendTt {
         from_pid: OwnedTerm,
         alias: OwnedTerm,
